@@ -23,7 +23,7 @@
 //! A Rust implementation of the ear clipping algorithm described, and coded in C++, at
 //! <https://abitwise.blogspot.com/2013/09/triangulating-concave-and-convex.html>
 
-use crate::{approx_eq, Indices, Pt2, Pt2s, Pt3, Pt3s};
+use crate::{Indices, Pt2, Pt2s, Pt3, Pt3s};
 
 /// Test if winding order is counter clockwise.
 ///
@@ -49,7 +49,7 @@ pub fn is_ccw(pts: &[(u64, Pt2)]) -> bool {
 /// return: True if the point is within the triangle else false.   
 pub fn in_triangle(p: &(u64, Pt2), a: &(u64, Pt2), b: &(u64, Pt2), c: &(u64, Pt2)) -> bool {
     let mut denom = (b.1.y - c.1.y) * (a.1.x - c.1.x) + (c.1.x - b.1.x) * (a.1.y - c.1.y);
-    if approx_eq(denom, 0.0, 1.0e-5) {
+    if denom == 0.0 {
         return true;
     }
     denom = 1.0 / denom;
@@ -270,7 +270,7 @@ fn triangulate(mut polygon: Vec<(u64, Pt2)>) -> Indices {
 
     (0..polygon.len()).for_each(|i| {
         if polygon[i].1.x < left.x
-            || (approx_eq(polygon[i].1.x, left.x, 1.0e-5) && polygon[i].1.y < left.y)
+            || (polygon[i].1.x == left.x && polygon[i].1.y < left.y)
         {
             index = i;
             left = polygon[i].1;
@@ -294,8 +294,8 @@ fn triangulate(mut polygon: Vec<(u64, Pt2)>) -> Indices {
     let ccw = is_ccw(&tri);
 
     while polygon.len() >= 3 {
-        let mut eartip = -1i16;
-        let mut index = -1i16;
+        let mut eartip = -1isize;
+        let mut index = -1isize;
 
         for i in &polygon {
             index += 1;
@@ -303,18 +303,18 @@ fn triangulate(mut polygon: Vec<(u64, Pt2)>) -> Indices {
                 break;
             }
 
-            let p: u16 = if index == 0 {
-                (polygon.len() - 1) as u16
+            let p: usize = if index == 0 {
+                polygon.len() - 1
             } else {
-                (index - 1) as u16
+                (index - 1) as usize
             };
-            let n: u16 = if index as usize == polygon.len() - 1 {
+            let n: usize = if index as usize == polygon.len() - 1 {
                 0
             } else {
-                (index + 1) as u16
+                (index + 1) as usize
             };
 
-            let tri = vec![polygon[p as usize], *i, polygon[n as usize]];
+            let tri = vec![polygon[p], *i, polygon[n]];
             if is_ccw(&tri) != ccw {
                 continue;
             }
@@ -323,13 +323,13 @@ fn triangulate(mut polygon: Vec<(u64, Pt2)>) -> Indices {
 
             for j in ((index + 1) as usize)..polygon.len() {
                 let v = &polygon[j];
-                if std::ptr::eq(v, &polygon[p as usize])
-                    || std::ptr::eq(v, &polygon[n as usize])
+                if std::ptr::eq(v, &polygon[p])
+                    || std::ptr::eq(v, &polygon[n])
                     || std::ptr::eq(v, &polygon[index as usize])
                 {
                     continue;
                 }
-                if in_triangle(v, &polygon[p as usize], i, &polygon[n as usize]) {
+                if in_triangle(v, &polygon[p], i, &polygon[n]) {
                     ear = false;
                     break;
                 }
@@ -347,7 +347,7 @@ fn triangulate(mut polygon: Vec<(u64, Pt2)>) -> Indices {
         } else {
             eartip as usize - 1
         };
-        let n = if eartip == (polygon.len() - 1) as i16 {
+        let n = if eartip as usize == polygon.len() - 1 {
             0
         } else {
             eartip as usize + 1
